@@ -129,6 +129,8 @@ class LogicBlock(SystemWideDevice, ModeDevice):
     def device_removed_from_mode(self, mode: Mode):
         """Unset internal state to prevent leakage."""
         super().device_removed_from_mode(mode)
+        # cancel our own delays (timeout, ignore window): they must not fire after the mode stopped
+        self.delay.clear()
         self._state = None
 
     @property
@@ -353,6 +355,11 @@ class Counter(LogicBlock):
 
         self.ignore_hits = False
         self.hit_value = -1
+
+    def device_removed_from_mode(self, mode: Mode):
+        """Stop ignoring hits since the window delay has been cancelled."""
+        super().device_removed_from_mode(mode)
+        self.ignore_hits = False
 
     async def _initialize(self):
         await super()._initialize()
